@@ -102,6 +102,8 @@ def run(tier, seed, replay=None):
                        "datagrams and the layer depth measured on the real ciphertext; TLC validates every recorded execution "
                        "and evaluates ExitIntegrity, ReturnIntegrity, LayerDepth, NoRepeatOnLinks on it; non-trivial = distinct "
                        "executions containing data transfer or an attack step")
+    if replay and K.replay_file(ctx, PID, replay, NONTRIVIAL):
+        return ctx.finish()
     ctx.assumptions += ["ChaCha20-Poly1305 / HKDF / X25519 of ipv8_rust_tunnels are idealised (symbolic AEAD, Dolev-Yao)",
                         "only PythonCryptoEndpoint (not the Rust endpoint fast path); for e2e (hidden-service) circuits the "
                         "rendezvous link and the shared end-to-end key are set up by the harness on the real tables (the "
